@@ -1,5 +1,6 @@
 mod merkle;
 mod codec;
+mod secrets;
 mod crypto;
 
 #[global_allocator]
